@@ -368,7 +368,7 @@ std::string handle(std::vector<std::string> const &t)
 int main()
 {
   init();
-  vh::op_budget() = 120;
+  vh::op_budget() = 900; // CPU seconds: one `selfcheck` line walks all 2^32 operand pairs of a 16-bit instantiation (100-130 s under ASan)
   return vh::run(handle);
 }
 #endif
